@@ -365,6 +365,100 @@ impl<N: Ord + Clone, D> Node<N, D> {
     }
 }
 
+/// Verification hook (feature `verif-hooks`): result of walking the whole tree.
+#[cfg(feature = "verif-hooks")]
+#[derive(Clone, Copy, Debug, PartialEq, Eq)]
+pub struct VerifInvariants {
+    /// number of nodes
+    pub nodes: usize,
+    /// real height of the tree (0 for the empty tree), computed from the structure
+    pub height: usize,
+    /// every stored height equals 1 + max(real child heights)
+    pub height_ok: bool,
+    /// every node's child heights differ by at most one
+    pub balanced: bool,
+    /// every stored `max` equals the maximum interval end in its subtree
+    pub max_ok: bool,
+    /// starts in the left subtree <= node start <= starts in the right subtree
+    pub order_ok: bool,
+}
+
+#[cfg(feature = "verif-hooks")]
+impl<N: Ord + Clone, D> IntervalTree<N, D> {
+    /// Verification hook: read-only walk over the tree that reports node count, height and
+    /// whether the height / balance / max-end / ordering invariants hold.
+    pub fn verif_invariants(&self) -> VerifInvariants {
+        let mut inv = VerifInvariants {
+            nodes: 0,
+            height: 0,
+            height_ok: true,
+            balanced: true,
+            max_ok: true,
+            order_ok: true,
+        };
+        if let Some(ref root) = self.root {
+            let (h, _, _, _) = root.verif_walk(&mut inv);
+            inv.height = h;
+        }
+        inv
+    }
+}
+
+#[cfg(feature = "verif-hooks")]
+impl<N: Ord + Clone, D> Node<N, D> {
+    // returns (real height, max end, min start, max start) of the subtree
+    fn verif_walk(&self, inv: &mut VerifInvariants) -> (usize, N, N, N) {
+        inv.nodes += 1;
+        let mut max_end = self.interval.end.clone();
+        let mut min_start = self.interval.start.clone();
+        let mut max_start = self.interval.start.clone();
+        let (mut lh, mut rh) = (0usize, 0usize);
+        if let Some(ref l) = self.left {
+            let (h, me, mins, maxs) = l.verif_walk(inv);
+            lh = h;
+            if me > max_end {
+                max_end = me;
+            }
+            if maxs > self.interval.start {
+                inv.order_ok = false;
+            }
+            if mins < min_start {
+                min_start = mins;
+            }
+            if maxs > max_start {
+                max_start = maxs;
+            }
+        }
+        if let Some(ref r) = self.right {
+            let (h, me, mins, maxs) = r.verif_walk(inv);
+            rh = h;
+            if me > max_end {
+                max_end = me;
+            }
+            if mins < self.interval.start {
+                inv.order_ok = false;
+            }
+            if mins < min_start {
+                min_start = mins;
+            }
+            if maxs > max_start {
+                max_start = maxs;
+            }
+        }
+        let h = 1 + cmp::max(lh, rh);
+        if self.height != h as i64 {
+            inv.height_ok = false;
+        }
+        if cmp::max(lh, rh) - cmp::min(lh, rh) > 1 {
+            inv.balanced = false;
+        }
+        if self.max != max_end {
+            inv.max_ok = false;
+        }
+        (h, max_end, min_start, max_start)
+    }
+}
+
 fn swap_interval_data<N: Ord + Clone, D>(node_1: &mut Node<N, D>, node_2: &mut Node<N, D>) {
     mem::swap(&mut node_1.value, &mut node_2.value);
     mem::swap(&mut node_1.interval, &mut node_2.interval);
